@@ -32,7 +32,7 @@ def run_recorded(case, fault_at=None):
         if case['route'] == 'writePotentials': writePotentials('DL_POLY', pots, case['cutoff'], case['nr'], out)
         else: DLPoly_PairTabulation(pots, case['cutoff'], case['nr']).write(out)
     except Exception as e:
-        if isinstance(e, layout.InjectedFault): raise
+        if isinstance(e, layout.InjectedFault) or (layout.FAULT_CLASS[0] is not None and isinstance(e, layout.FAULT_CLASS[0])): raise
         return rec, out.getvalue(), type(e).__name__
     return rec, out.getvalue(), None
 
@@ -108,7 +108,7 @@ def correspond(ctx):
     return {'number_format_cells': nfmt, 'number_format': fdist, 'evaluations': nfmt + len(allc), 'cases': allc, 'nontrivial': core.distinct_count([c for c in allc if c.get('pots', c.get('potable'))]),
             'rule': 'as C01 with row counts both divisible and not divisible by four (rejected ones must raise and write nothing), API and potable (DL_POLY and DLPOLY targets); '
                     'whole file text compared with the rendered model; non-trivial = at least one potential; distinct by canonical JSON',
-            'samples': cases[:2] + pcases[:1], 'distribution': dist, 'disagreements': dis[:20], 'oracle_cases': allc}
+            'samples': cases[:2] + pcases[:1], 'distribution': dist, 'disagreements': dis[:20], 'oracle_cases': allc + custom_h_corpus()}
 
 def synth_accumulated(trace, pots, case):
     """the model's evaluations on the real Potential objects, at the separations the writer really reaches: it accumulates
@@ -153,8 +153,37 @@ def parse_dlpoly(text):
         i += 1 + 2 * nrec
     return delpot, cutpot, ngrid, blocks
 
+def custom_h_corpus():
+    """Potential objects built from plain callables (no .deriv) with a step h of their own: the force block is -r times the central
+    difference taken with THAT step (the documented meaning of Potential(..., h=...)); h is large enough to tell it from the default"""
+    return [{'custom_h': True, 'h': 0.5, 'nr': 12, 'cutoff': 4.0, 'route': 'class'}, {'custom_h': True, 'h': 0.02, 'nr': 8, 'cutoff': 6.0, 'route': 'writePotentials'}]
+
+def check_custom_h(case):
+    import math
+    from atsim.potentials import Potential, writePotentials
+    from atsim.potentials.pair_tabulation import DLPoly_PairTabulation
+    f = lambda r: 5.0 * math.exp(-r / 1.5) + 0.25 * r * r
+    pots = [Potential('Ar', 'Kr', f, h=case['h']), Potential('Kr', 'Kr', lambda r: 2.0 * f(r))]       # the second one with the default step
+    out = io.StringIO()
+    try:
+        if case['route'] == 'class': DLPoly_PairTabulation(pots, case['cutoff'], case['nr']).write(out)
+        else: writePotentials('DL_POLY', pots, case['cutoff'], case['nr'], out=out)
+        delpot, cutpot, ngrid, blocks = parse_dlpoly(out.getvalue())
+    except Exception as e: return ['Potential(..., h=%r): %s: %s' % (case['h'], type(e).__name__, str(e)[:100])]
+    fails = []
+    mesh = case['cutoff'] / (case['nr'] - 4)
+    for bi, (h, g) in enumerate([(case['h'], f), (1e-6, lambda r: 2.0 * f(r))]):
+        for k in range(1, case['nr'] + 1):
+            x = k * mesh
+            want = -x * (g(x + h / 2) - g(x - h / 2)) / h
+            got = blocks[bi]['f'][k - 1]
+            if abs(got - want) > 2e-7 * max(1.0, abs(want)) + (1e-4 * abs(want) if h == 1e-6 else 0.0):
+                fails.append('block %d (Potential built with h=%r): force value %d is %r, -r times the central difference with that step is %r' % (bi, h, k, got, want)); break
+    return fails
+
 def oracle(case):
     fails = []
+    if case.get('custom_h'): return check_custom_h(case)
     if 'potable' in case:
         tab, text, exc = run_potable(case)
         if case['nr'] % 4:
@@ -215,6 +244,7 @@ def oracle(case):
 
 def search_cases(rng, n):
     for c in potable_corpus(): yield c
+    for c in custom_h_corpus(): yield c
     for k in range(n // 3):
         yield gen_case(rng)
         if k % 6 == 0: yield gen_potable_case(rng)
